@@ -179,6 +179,14 @@ theorem traversal_not_shrunk :
         | none => false) = true := by
   decide +kernel
 
+/-- **type_keys_separate_variants**: type instances that differ in a public constructor
+    argument — including the boundary values 0 / False / '' against "unset" — have
+    different `_static_cache_key`s (the component of every statement cache key that
+    carries bind / cast / column types); regenerated from the working tree -/
+theorem type_keys_separate_variants :
+    (SaVerif.Gen.CacheKeyTables.typeKeys.map (·.2)).Nodup := by
+  decide +kernel
+
 /-! ## non-vacuity -/
 
 def exS1 : T := .pair (.atom 1) (.pair (.bind ⟨7, 0, 3, false, 10⟩) (.pair (.atom 2) (.bind ⟨7, 0, 3, false, 10⟩)))
